@@ -69,7 +69,8 @@ Record stmt_tpl := {
   t_opts : opts_src;
   t_extra : option extra_test_tpl }.
 
-Inductive sexp := XVar (v : string) | XUnion (a b : sexp) | XInter (a b : sexp) | XDiff (a b : sexp).
+Inductive sexp := XVar (v : string) | XUnion (a b : sexp) | XInter (a b : sexp) | XDiff (a b : sexp)
+| XFn (field : string).   (* fn_scope.globals / fn_scope.nonlocals: names declared global / nonlocal in the function *)
 Inductive keypart := KSelf | KIn (s : string) | KNotIn (s : string).
 
 Record blockvars_tpl := {
